@@ -7,7 +7,9 @@ import random
 import vlib
 
 LEVEL = "model_checking"
-MAPS = [(1, 0, "int"), (1.0, 0.0, "float"), (0.5, 2.0, "x0.5+2"), (256.0, -3.0, "x2^8-3")]
+MAPS = [(1, 0, "int"), (1.0, 0.0, "float"), (0.5, 2.0, "x0.5+2"), (256.0, -3.0, "x2^8-3"),
+        # sub-unit geometry: distances and cell sizes below 1, where a squared distance is SMALLER than the distance (a units slip shows only there)
+        (0.125, 1.0, "x2^-3+1"), (2.0 ** -6, 0.0, "x2^-6")]
 
 
 def _sg():
